@@ -25,7 +25,9 @@
 EXTENDS Naturals, Sequences, FiniteSets, TLC
 
 CONSTANTS Entries, Final, Cap, BpRules, MaxCmds, MaxRuns,
-          AllowBadRun     \* whether the controller may also start a run with a rule the grammar does not define
+          AllowBadRun,    \* whether the controller may also start a run with a rule the grammar does not define
+                          \* and add breakpoints on all grammar rules at once (directed scripts only)
+          GrammarRules    \* the rules the grammar defines (built-ins that are entered are not among them)
 
 VARIABLES bps, isDone, gen, th, chan, ctl, ncmd, emptyAtRunLoad,
           hist, sentBp, wakes        \* history variables (hidden by the VIEW when model checking)
@@ -182,7 +184,7 @@ CRecv ==
 
 CBp(op, r) ==
   /\ CmdOk /\ ncmd' = ncmd + 1
-  /\ bps' = CASE op = "add" -> bps \cup {r} [] op = "del" -> bps \ {r} [] OTHER -> {}
+  /\ bps' = CASE op = "add" -> bps \cup {r} [] op = "del" -> bps \ {r} [] op = "addall" -> bps \cup GrammarRules [] OTHER -> {}
   /\ Log("ctl", gen, op, r)
   /\ UNCHANGED <<isDone, gen, th, chan, ctl, emptyAtRunLoad, sentBp, wakes>>
 
@@ -190,7 +192,7 @@ Controller ==
   \/ CStartRun(FALSE) \/ (AllowBadRun /\ CStartRun(TRUE)) \/ CRunLoad \/ CRunStore \/ CRunUnpark \/ CRunJoin \/ CRunReset \/ CSpawn
   \/ CStartCont \/ CContLoad \/ CContUnpark \/ CRecv
   \/ \E r \in BpRules : CBp("add", r) \/ CBp("del", r)
-  \/ CBp("delall", "")
+  \/ CBp("delall", "") \/ (AllowBadRun /\ CBp("addall", ""))
 
 Next == Controller \/ \E g \in Runs : Parser(g)
 Spec == Init /\ [][Next]_vars
